@@ -188,7 +188,9 @@ func parseParamValue(
 
 		if strings.HasPrefix(value, `"`) || strings.HasPrefix(value, "`") {
 			if strings.HasPrefix(value, `"`) {
-				value = strings.Trim(value, `"`)
+				// strip exactly the enclosing pair of quotes: a value may
+				// itself begin or end with an (escaped) quote
+				value = value[1 : len(value)-1]
 				value = strings.ReplaceAll(value, `\"`, `"`)
 			}
 
